@@ -174,6 +174,32 @@ func c14LZMAWriter(cfg lzma.WriterConfig, data []byte, byteWriter bool) c14Body 
 	}}
 }
 
+// c14LZMAWriterEarlyClose: a classic writer with the size in its header is closed after half of
+// the announced bytes (Close must fail), is then given the rest and closed again: a history with
+// an error path in the middle, during which other instances are created and used.
+func c14LZMAWriterEarlyClose(cfg lzma.WriterConfig, data []byte) c14Body {
+	return c14Body{kind: "lzmaW", run: func(point func()) []byte {
+		pw := &pointWriter{point: point}
+		cfg := cfg
+		cfg.SizeInHeader, cfg.Size = true, int64(len(data))
+		point()
+		w, err := cfg.NewWriter(pw)
+		if err != nil {
+			return []byte("ctor:" + err.Error())
+		}
+		h := len(data) / 2
+		point()
+		_, e1 := w.Write(data[:h])
+		point()
+		e2 := w.Close()
+		point()
+		_, e3 := w.Write(data[h:])
+		point()
+		e4 := w.Close()
+		return append([]byte(fmt.Sprintf("w:%v,early-close:%v,w:%v;c:%v;", e1, e2 != nil, e3, e4)), pw.b...)
+	}}
+}
+
 func c14LZMA2Writer(cfg lzma.Writer2Config, data []byte) c14Body {
 	return c14Body{kind: "lzma2W", run: func(point func()) []byte {
 		pw := &pointWriter{point: point}
@@ -239,6 +265,7 @@ func c14Scenarios() []c14Scn {
 		{"xzW(CRC32, aligned block)|xzW(CRC32)", []c14Body{c14XZWriter(xz.WriterConfig{DictCap: 4096, CheckSum: xz.CRC32}, randBytes(80, 40)), c14XZWriter(xz.WriterConfig{DictCap: 4096, CheckSum: xz.CRC32}, randBytes(80, 42))}},
 		// readers decoding uncompressed chunks (bulk copies through staging buffers)
 		{"xzR(raw chunks)|lzma2R(raw chunks)", []c14Body{c14XZReader(mustLibXZ(XZCfg{DictCap: 4096, Check: 1, BlockSize: 100}, randBytes(84, 180))), c14LZMA2Reader(mustLibLZMA2(L2Cfg{DictCap: 4096}, randBytes(85, 160), []L2Step{{"w", 70}, {"f", 0}}))}},
+		{"lzmaW(size, early Close, continued)|lzmaW (bufio)", []c14Body{c14LZMAWriterEarlyClose(lzma.WriterConfig{DictCap: 4096}, t[:80]), c14LZMAWriter(lzma.WriterConfig{DictCap: 4096}, t[10:70], false)}},
 		{"lzmaW|lzmaW same props (bufio)", []c14Body{c14LZMAWriter(lzma.WriterConfig{DictCap: 4096}, t[:90], false), c14LZMAWriter(lzma.WriterConfig{DictCap: 4096}, t[10:100], false)}},
 	}
 }
@@ -250,9 +277,18 @@ func c14Menu() []c14Body {
 	t := c14Text
 	rt := append(append([]byte(nil), randBytes(81, 60)...), t[:100]...)
 	big := append(append([]byte(nil), randBytes(82, 70000)...), textBytes(82, 3000)...)
-	stream := mustLibXZ(XZCfg{DictCap: 4096, BlockSize: 90, Check: 1}, t[:150])
-	l2 := mustLibLZMA2(L2Cfg{DictCap: 4096}, t[:140], []L2Step{{"w", 70}, {"f", 0}})
-	lz := mustLibLZMA(LZCfg{DictCap: 4096}, t[:120])
+	// the streams the reader bodies decode are written by the reference encoder: building the menu
+	// must not touch the library, otherwise the "pristine" process of the differential oracle has
+	// already created library instances (and filled whatever they leave behind)
+	dp := ref.Props{LC: 3, LP: 0, PB: 2}
+	stream := ref.EncodeXZStream(ref.CheckCRC32, []ref.XZBlockSpec{
+		{LZMA2: ref.EncodeLZMA2Simple(t[:90], dp, 60), Plain: t[:90], DictCode: 0},
+		{LZMA2: ref.EncodeLZMA2Simple(t[90:150], dp, 60), Plain: t[90:150], DictCode: 0}})
+	l2 := ref.EncodeLZMA2Simple(t[:140], dp, 70)
+	lz, _, lzErr := ref.EncodeAlone(dp, 4096, ref.GreedyOps(0, t[:120], 4096), false, true)
+	if lzErr != nil {
+		panic(lzErr)
+	}
 	m := []c14Body{
 		c14XZWriter(xz.WriterConfig{DictCap: 4096}, t[:200]),
 		c14XZWriter(xz.WriterConfig{DictCap: 4096, BlockSize: 64}, t[20:250]),
@@ -276,13 +312,25 @@ func c14Menu() []c14Body {
 			return append(out, []byte("|"+errStr(err))...)
 		}},
 	}
-	rawx := mustLibXZ(XZCfg{DictCap: 4096, Check: 1, BlockSize: 100}, randBytes(84, 180))
+	rg := ref.NewLZMA2Gen()
+	rg.Add(ref.ChunkSpec{Kind: ref.CRawReset, Raw: randBytes(84, 100)})
+	rg.Add(ref.ChunkSpec{Kind: ref.CRaw, Raw: randBytes(86, 80)})
+	rg.Add(ref.ChunkSpec{Kind: ref.CEnd})
+	rawx := ref.EncodeXZStream(ref.CheckCRC32, []ref.XZBlockSpec{{LZMA2: rg.Out, Plain: rg.Plain, DictCode: 0}})
 	m = append(m, c14XZReader(rawx),
 		// same lc+lp, different pb / same literal table size, different split
 		c14XZWriter(xz.WriterConfig{DictCap: 4096, Properties: &lzma.Properties{LC: 3, LP: 0, PB: 0}}, t[:200]),
 		c14XZWriter(xz.WriterConfig{DictCap: 4096, Properties: &lzma.Properties{LC: 2, LP: 1, PB: 2}}, t[:200]),
 		c14XZWriter(xz.WriterConfig{DictCap: 4096, Properties: &lzma.Properties{LC: 0, LP: 2, PB: 4}}, t[:150]),
 		c14LZMAWriter(lzma.WriterConfig{DictCap: 4096, Properties: &lzma.Properties{LC: 3, LP: 0, PB: 4}}, t[:90], false),
+		// every way two property sets can agree in part (same lc+lp and pb with another split, same
+		// lc and pb, same lp and pb, same lc and lp): a cache keyed by less than (lc, lp, pb) shows
+		c14XZWriter(xz.WriterConfig{DictCap: 4096, Properties: &lzma.Properties{LC: 0, LP: 3, PB: 2}}, t[:200]),
+		c14XZWriter(xz.WriterConfig{DictCap: 4096, Properties: &lzma.Properties{LC: 3, LP: 1, PB: 2}}, t[:200]),
+		c14XZWriter(xz.WriterConfig{DictCap: 4096, Properties: &lzma.Properties{LC: 2, LP: 0, PB: 2}}, t[:200]),
+		c14LZMAWriter(lzma.WriterConfig{DictCap: 4096, Properties: &lzma.Properties{LC: 2, LP: 1, PB: 2}}, t[:90], false),
+		c14LZMA2Writer(lzma.Writer2Config{DictCap: 4096, Properties: &lzma.Properties{LC: 1, LP: 2, PB: 2}}, t[30:150]),
+		c14LZMAWriterEarlyClose(lzma.WriterConfig{DictCap: 4096}, t[:80]),
 	)
 	// four CRC32 writers with raw payloads of consecutive lengths: one of them has a block whose
 	// compressed size is a multiple of four (no block padding)
@@ -457,7 +505,7 @@ func runC14(r *core.Run) {
 	if th {
 		bound = 3
 	}
-	r.Rule = fmt.Sprintf("2-3 goroutine bodies, each driving its own xz/LZMA/LZMA2 writer or reader, under a cooperative scheduler; scheduling points: every public call boundary, every call-back into the harness' sink/source (one per sink write / source read, the decoders read byte by byte) and every sync/sync-atomic operation of the repository (routed through an overlay shim); DFS with iterative preemption bounding (bound %d); oracle: every thread's result equals its solo run, outputs decode with the reference, solo runs first and last are byte-identical; a history check: every ordered pair of a menu of 27 bodies (all writer kinds, check types, raw first chunks, readers) in a fresh process, the second result must equal its result in a pristine process; plus a separate free-running pass of the same bodies under the race detector with GOMAXPROCS 2/4/16. states = scenarios x preemption counts; non-trivial = distinct (scenario, schedule)", bound)
+	r.Rule = fmt.Sprintf("2-3 goroutine bodies, each driving its own xz/LZMA/LZMA2 writer or reader, under a cooperative scheduler; scheduling points: every public call boundary, every call-back into the harness' sink/source (one per sink write / source read, the decoders read byte by byte) and every sync/sync-atomic operation of the repository (routed through an overlay shim); DFS with iterative preemption bounding (bound %d); oracle: every thread's result equals its solo run, outputs decode with the reference, solo runs first and last are byte-identical; a history check: every ordered pair of a menu of 33 bodies (all writer kinds, check types, raw first chunks, readers) in a fresh process, the second result must equal its result in a pristine process; plus a separate free-running pass of the same bodies under the race detector with GOMAXPROCS 2/4/16. states = scenarios x preemption counts; non-trivial = distinct (scenario, schedule)", bound)
 	if shimCalls != nil {
 		r.Extra("sync_shim_overlay", "active")
 	} else {
